@@ -798,11 +798,22 @@ def pretty(e):
 def subtrees_replacements(e):
     """candidate smaller expressions: a subtree replaced by one of its children or by a fresh atom"""
     out = []
+    SMALLER = {'and3': 'and', 'or3': 'or', 'kw2': 'callkw', 'slice3': 'slice', 'call2': 'call1', 'fstr2': 'fstr', 'attr2': 'attr', 'genq': 'attr',
+               'chain': 'lt', 'slice': 'sub', 'callkw': 'call1', 'meth': 'call1', 'sliceto': 'sub', 'gen': None, 'fstr': 'call1'}
     def rec(e, rebuild):
-        if e[0] in ('a', 'lit'): return
+        if e[0] in ('a', 'lit'):
+            if e[0] == 'lit': out.append(rebuild(('a', 'z')))
+            return
         for c in e[1:]:
             out.append(rebuild(c))
         out.append(rebuild(('a', 'z')))
+        sm = SMALLER.get(e[0])
+        if sm:                                   # the same operator with one operand less
+            kids = e[1:]
+            for drop in range(len(kids)):
+                rest = kids[:drop] + kids[drop + 1:]
+                want = 1 if sm in UNARY or sm in ('attr',) else 2 if sm in BINARY or sm in ('sub', 'lt') else 3
+                if len(rest) == want: out.append(rebuild((sm,) + rest))
         for i, c in enumerate(e[1:], 1):
             rec(c, lambda x, i=i, e=e, rebuild=rebuild: rebuild(e[:i] + (x,) + e[i + 1:]))
     rec(e, lambda x: x)
@@ -1048,7 +1059,18 @@ def prog_key(pr):
     if len(cl) == 1 and cl[0]['target'] == 'x' and cl[0]['iter'] is None:
         if not cl[0]['conds']: return violation_key('elt', pr['elt'])
         if len(cl[0]['conds']) == 1 and pr['elt'] == ('a', 'x'): return violation_key('cond', cl[0]['conds'][0])
-    return 'program:' + ast.unparse(ast.parse(render_prog(pr), mode='eval'))
+    bound = set()
+    for c in cl: bound.update(t.strip() for t in c['target'].split(','))
+    m = {}
+    def ren(e):
+        if e[0] == 'a':
+            if e[1] in bound or e[1] == 'U': return e
+            if e[1] not in m: m[e[1]] = ATOMS[len(m)]
+            return ('a', m[e[1]])
+        if e[0] == 'lit': return e
+        return (e[0],) + tuple(ren(c) for c in e[1:])
+    pr2 = {'elt': ren(pr['elt']), 'clauses': [{'target': c['target'], 'iter': None if c['iter'] is None else ren(c['iter']), 'conds': [ren(x) for x in c['conds']]} for c in cl]}
+    return 'program:' + ast.unparse(ast.parse(render_prog(pr2), mode='eval'))
 
 
 # ------------------------------------------------------------------------------------------------ running a chunk of programs (one worker)
